@@ -50,6 +50,16 @@ func main() {
 			os.Exit(2)
 		}
 		fmt.Println("warm: worker builds")
+		os.Setenv("VERIF_RACE", "1")
+		b, err = build.Build(repoDir(), filepath.Join(verifDir(), "sim"))
+		if b != nil {
+			os.RemoveAll(b.Scratch)
+		}
+		if err != nil {
+			fmt.Fprintln(os.Stderr, "BUILD TROUBLE (race build):", err)
+			os.Exit(2)
+		}
+		fmt.Println("warm: race-pass worker builds")
 		os.Exit(0)
 	case "selftest":
 		os.Exit(cmdSelftest(os.Args[2:]))
